@@ -103,7 +103,16 @@ fn protocol_messages() -> (ProtocolMessage, ProtocolMessage) {
 }
 
 impl CommonWorld {
-    fn build(cfg: &Cfg) -> CommonWorld {
+    /// Err: the honest path of the real API (fixture registration, SignerBuilder) fails or panics
+    fn try_build(cfg: &Cfg) -> Result<CommonWorld, String> {
+        let cfg2 = cfg.clone();
+        match mc_core::catch(move || CommonWorld::build_inner(&cfg2)) {
+            Ok(r) => r,
+            Err(p) => Err(format!("panic: {p} at {}", mc_core::last_panic_location())),
+        }
+    }
+
+    fn build_inner(cfg: &Cfg) -> Result<CommonWorld, String> {
         let pp = ProtocolParameters::new(cfg.k, cfg.m, cfg.phi_f);
         // first pass creates the certified parties (operational certificates) and tells their ids
         let ids: Vec<String> = MithrilFixtureBuilder::default()
@@ -121,10 +130,13 @@ impl CommonWorld {
             .with_protocol_parameters(pp.clone())
             .with_stake_distribution(StakeDistributionGenerationMethod::Custom(dist))
             .build();
-        let multi_signer = SignerBuilder::new(&fixture.signers_with_stake(), &pp).expect("signer builder").build_multi_signer();
+        let multi_signer = SignerBuilder::new(&fixture.signers_with_stake(), &pp).map_err(|e| format!("SignerBuilder::new on certified signers: {e:#}"))?.build_multi_signer();
         let avk = multi_signer.compute_aggregate_verification_key();
-        let j = serde_json::to_value(avk.to_concatenation_aggregate_verification_key()).expect("avk json");
-        let root: Vec<u8> = j["mt_commitment"]["root"].as_array().expect("root").iter().map(|x| x.as_u64().unwrap() as u8).collect();
+        let j = serde_json::to_value(avk.to_concatenation_aggregate_verification_key()).map_err(|e| format!("aggregate key has no JSON form: {e}"))?;
+        let root: Vec<u8> = j["mt_commitment"]["root"]
+            .as_array()
+            .and_then(|a| a.iter().map(|x| x.as_u64().and_then(|n| u8::try_from(n).ok())).collect::<Option<Vec<u8>>>())
+            .ok_or("no Merkle root in the JSON form of the aggregate key")?;
         let parties: Vec<(Vec<u8>, u64, u64)> = fixture
             .signers_fixture()
             .iter()
@@ -138,7 +150,7 @@ impl CommonWorld {
             .collect();
         let total = parties.iter().map(|p| p.1).sum();
         let view = View { label: format!("common:{}", cfg.label()), m: cfg.m, k: cfg.k, phi_f: cfg.phi_f, total, root, parties };
-        CommonWorld { cfg: cfg.clone(), fixture, multi_signer, avk, params: Parameters { m: cfg.m, k: cfg.k, phi_f: cfg.phi_f }, view }
+        Ok(CommonWorld { cfg: cfg.clone(), fixture, multi_signer, avk, params: Parameters { m: cfg.m, k: cfg.k, phi_f: cfg.phi_f }, view })
     }
 
     fn honest(&self, pm: &ProtocolMessage) -> Vec<Option<CSig>> {
@@ -146,7 +158,7 @@ impl CommonWorld {
             .signers_fixture()
             .iter()
             .zip(self.view.parties.iter())
-            .map(|(s, p)| s.sign(pm).and_then(|e| single_to_csig(&e.to_protocol_signature(), &p.0, p.1)))
+            .map(|(s, p)| mc_core::catch(|| s.sign(pm)).ok().flatten().and_then(|e| single_to_csig(&e.to_protocol_signature(), &p.0, p.1)))
             .collect()
     }
 
@@ -229,21 +241,21 @@ struct El {
     small: bool,
 }
 
-fn wire(s: &CSig) -> Option<SingleSignature> {
-    // JSON text, then the versioned bytes
-    let a = decode_single_json(s).ok()?;
-    let b = a.to_bytes().ok()?;
-    let a2 = decode_single_bytes(&b).ok()?;
-    // and the legacy layout must decode to the same value
-    if let Ok(a3) = decode_single_bytes(&s.single_legacy())
-        && serde_json::to_value(&a3).ok() != serde_json::to_value(&a2).ok()
-    {
-        return None;
-    }
-    Some(a2)
+/// JSON text, then the versioned bytes. Ok((value, legacy layout decodes to the same value?))
+fn wire(s: &CSig) -> Result<(SingleSignature, bool), String> {
+    let a = decode_single_json(s).map_err(|e| format!("JSON form does not decode: {e}"))?;
+    let b = mc_core::catch(|| a.to_bytes()).map_err(|p| format!("to_bytes panics: {p}"))?.map_err(|e| format!("to_bytes fails: {e:#}"))?;
+    let a2 = decode_single_bytes(&b).map_err(|e| format!("its own bytes do not decode: {e}"))?;
+    let legacy_same = match decode_single_bytes(&s.single_legacy()) {
+        Ok(a3) => serde_json::to_value(&a3).ok() == serde_json::to_value(&a2).ok(),
+        Err(_) => false,
+    };
+    Ok((a2, legacy_same))
 }
 
-fn alphabet(sc: &Scene, r: &Reference) -> Vec<El> {
+/// the alphabet, and the honest signatures that do not survive their own wire encodings
+fn alphabet(sc: &Scene, r: &Reference) -> (Vec<El>, Vec<(String, String)>) {
+    let mut lost: Vec<(String, String)> = vec![];
     let n = sc.view.parties.len() as u64;
     let m = sc.view.m;
     let mut raw: Vec<(String, CSig, bool)> = vec![];
@@ -296,7 +308,17 @@ fn alphabet(sc: &Scene, r: &Reference) -> Vec<El> {
     }
     let mut out = vec![];
     for (name, c, small) in raw {
-        let Some(sig) = wire(&c) else { continue };
+        let sig = match wire(&c) {
+            Ok((sig, _legacy_same)) => sig,
+            Err(e) => {
+                // an invalid variant that cannot even be transported never reaches the aggregator; an honest
+                // signature that cannot is a completeness failure
+                if name.starts_with('H') {
+                    lost.push((name, e));
+                }
+                continue;
+            }
+        };
         // reference validity, for the party registered at the slot the signature names
         let validity = match sc.view.party_by_slot(c.slot) {
             None => Validity::Invalid("names an unregistered signer slot".into()),
@@ -311,7 +333,7 @@ fn alphabet(sc: &Scene, r: &Reference) -> Vec<El> {
         };
         out.push(El { name, csig: c, sig, validity, small });
     }
-    out
+    (out, lost)
 }
 
 // ---------------------------------------------------------------------------------------------
@@ -327,6 +349,14 @@ struct Res {
 }
 
 fn run_seq(sc: &Scene, alpha: &[El], seq: &[u8]) -> Res {
+    match mc_core::catch(|| run_seq_inner(sc, alpha, seq)) {
+        Ok(r) => r,
+        // a panic outside the guarded aggregate / verify calls (encoders, Serialize of the code under test)
+        Err(p) => Res { success: false, verifies: false, label: "panic", detail: format!("panic: {p} at {}", mc_core::last_panic_location()) },
+    }
+}
+
+fn run_seq_inner(sc: &Scene, alpha: &[El], seq: &[u8]) -> Res {
     let sigs: Vec<SingleSignature> = seq.iter().map(|i| alpha[*i as usize].sig.clone()).collect();
     match (sc.aggregate)(&sigs) {
         Err(e) => Res { success: false, verifies: false, label: reject_label(&e), detail: e },
@@ -532,7 +562,20 @@ fn common_cfgs(tier: Tier) -> Vec<Cfg> {
 
 /// `l_small` is (bound for equal-stake scenes, bound for the skewed ones)
 fn run_scenes(scenes: &[Scene], r: &Reference, l_full: usize, l_small: (usize, usize), threads: usize, rep: &mut Report, only: Option<&[String]>) {
-    let alphas: Vec<Vec<El>> = par_map(scenes, threads, |_, sc| alphabet(sc, r));
+    let built: Vec<(Vec<El>, Vec<(String, String)>)> = par_map(scenes, threads, |_, sc| {
+        mc_core::catch(|| alphabet(sc, r)).unwrap_or_else(|p| (vec![], vec![("alphabet".to_string(), format!("building the alphabet panics: {p} at {}", mc_core::last_panic_location()))]))
+    });
+    let mut alphas: Vec<Vec<El>> = vec![];
+    for (sc, (a, lost)) in scenes.iter().zip(built) {
+        for (name, e) in lost {
+            rep.violation(
+                "C02/honest-signature-does-not-verify",
+                format!("{}:{}: the signature produced by a registered signer ({name}) does not survive its own wire encoding, so it cannot be verified or aggregated: {e}", sc.route, sc.view.label),
+                json!({"route": sc.route, "cfg": sc.cfg.to_json(), "sequence": [name]}),
+            );
+        }
+        alphas.push(a);
+    }
     let orders: Vec<Vec<Vec<u8>>> = match only {
         None => alphas
             .iter()
@@ -613,13 +656,26 @@ pub fn run(ctx: &Ctx) -> ! {
     if let Some(path) = &ctx.replay {
         let v = mc_core::load_replay(path);
         let cfg = Cfg::from_json(&v["cfg"]).expect("cfg");
-        let names: Vec<String> = v["sequence"].as_array().expect("sequence").iter().map(|x| x.as_str().unwrap().to_string()).collect();
+        // replay files of kind "setup" carry no sequence: only the honest setup is re-run
+        let names: Vec<String> = v["sequence"].as_array().map(|a| a.iter().filter_map(|x| x.as_str().map(|s| s.to_string())).collect()).unwrap_or_default();
         if v["route"].as_str() == Some("common-multi-signer") {
-            let cw = CommonWorld::build(&cfg);
+            let cw = match CommonWorld::try_build(&cfg) {
+                Ok(cw) => cw,
+                Err(e) => {
+                    crate::c01::setup_violation(&mut rep, "C02", &cfg, "common-multi-signer", &e);
+                    rep.finish(ctx)
+                }
+            };
             let scenes = vec![cw.scene(&pa, &pb)];
             run_scenes(&scenes, &r, 0, (0, 0), threads, &mut rep, Some(&names));
         } else {
-            let w = World::build(&cfg);
+            let w = match World::try_build(&cfg) {
+                Ok(w) => w,
+                Err(e) => {
+                    crate::c01::setup_violation(&mut rep, "C02", &cfg, "stm-clerk", &e);
+                    rep.finish(ctx)
+                }
+            };
             let scenes = vec![stm_scene(&w, &ma, &mb)];
             run_scenes(&scenes, &r, 0, (0, 0), threads, &mut rep, Some(&names));
         }
@@ -634,14 +690,41 @@ pub fn run(ctx: &Ctx) -> ! {
 
     // route 1: the STM clerk, whole configuration lattice of C01
     let cfgs = crate::c01::configs(ctx.tier);
-    let worlds: Vec<World> = par_map(&cfgs, threads, |_, c| crate::c01::settle_seed(c).1);
+    // "every signature produced by a registered signer verifies …": an honest setup that fails on the real
+    // API is a completeness violation, not a machinery problem
+    let mut worlds: Vec<World> = vec![];
+    for (c, b) in cfgs.iter().zip(par_map(&cfgs, threads, |_, c| crate::c01::settle_seed(c))) {
+        match b {
+            Ok((_, w)) => worlds.push(w),
+            Err(e) => crate::c01::setup_violation(&mut rep, "C02", c, "stm-clerk", &e),
+        }
+    }
+    for w in &worlds {
+        for n in &w.notes {
+            rep.add_extra(&format!("world_note: {n}"), 1);
+        }
+        // recorded, not judged (the property does not oblige a signer to sign): parties whose genuine sigma wins
+        // an index by the reference although the real signer returns no signature
+        let msgp = w.msgp(&ma);
+        for i in 0..w.parties.len() {
+            if w.honest(i, &ma).is_none() && !r.winning(&w.view, &msgp, &w.raw_sign(i, &msgp), w.parties[i].stake).is_empty() {
+                rep.add_extra("signers_without_signature_although_reference_wins", 1);
+            }
+        }
+    }
     let scenes: Vec<Scene> = worlds.iter().map(|w| stm_scene(w, &ma, &mb)).collect();
     rep.extra("configurations_stm_clerk", json!(scenes.len()));
     run_scenes(&scenes, &r, l_full, l_small, threads, &mut rep, None);
 
     // route 2: mithril-common MultiSigner on certified fixture signers
     let ccfgs = common_cfgs(ctx.tier);
-    let cworlds: Vec<CommonWorld> = ccfgs.iter().map(CommonWorld::build).collect();
+    let mut cworlds: Vec<CommonWorld> = vec![];
+    for c in &ccfgs {
+        match CommonWorld::try_build(c) {
+            Ok(cw) => cworlds.push(cw),
+            Err(e) => crate::c01::setup_violation(&mut rep, "C02", c, "common-multi-signer", &e),
+        }
+    }
     let cscenes: Vec<Scene> = cworlds.iter().map(|cw| cw.scene(&pa, &pb)).collect();
     rep.extra("configurations_common_multi_signer", json!(cscenes.len()));
     let (cl_full, cl_small) = ctx.tier.pick((2usize, (3usize, 3usize)), (2usize, (4usize, 4usize)));
